@@ -122,6 +122,10 @@ func (s *Session) Deliver(out []byte, incoming []byte, now time.Time) (bool, []b
 		if !s.rp.ValidateCounter(uint64(nonce), MaxNonce) {
 			return false, nil, nil
 		}
+		if s.hsIndex < 4 && s.nonce < noncePostHandshake {
+			// an initiator completed by data (RespDone lost) must not reuse the handshake's counters
+			s.nonce = noncePostHandshake
+		}
 		s.hsIndex = 8 // successfully received a packet
 		return true, out, nil
 	}
